@@ -77,7 +77,7 @@ def check(prog, rep):
     entry = 'regions'
     try:
         # a relabelling loop moved into a helper, or the two passes split into two kernels, read as written in place
-        k = interpret(prog, f, strict=False, inline_procedures=True, inline_all=lambda g_: g_.jit is not None and g_.module is f.module)
+        k = interpret(prog, f, strict=False, inline_procedures=True, inline_all=lambda g_: g_.jit is not None and prog.same_unit(f.module, g_.module))
     except AnalysisIncomplete as e:
         # labels written through `x = out.ravel()` / `out.reshape(-1)`: a view only when `out` is C-contiguous.  An array
         # allocated like the input (zeros_like / empty_like ...) follows the input's layout: for a column-major raster the
